@@ -249,6 +249,9 @@ def build_items(tier, seed):
         for j in range(2):
             o = dict(r.choice(optsets)) if r.random() < 0.5 else options.random_set(r, 0.6)
             k = r.random()
+            if name.startswith('seed:global_multi') or name.startswith('seed:nonlocal_multi'):
+                o['rename_globals'] = True
+                o['rename_locals'] = True
             if k < 0.35:
                 o['preserve_globals'] = r.choice([['alpha', 'helper'], ['A'], [], ['public_one', 'CONFIG', 'Widget']])
                 o['rename_globals'] = True
